@@ -14,7 +14,13 @@ STUB_ATTR = {
     "S2": "#[kani::stub(std::fmt::format, crate::stubs::fmt_format)]",
 }
 STUB_ATTR["S4"] = "#[kani::stub(core::fmt::Formatter::pad, crate::stubs::fmt_pad)]"
+STUB_ATTR["S3a"] = "#[kani::stub(std_detect::detect::arch::x86::__is_feature_detected::avx2, crate::ascii_ops::avx2_no)]"
+STUB_ATTR["S3b"] = ("#[kani::stub(std_detect::detect::arch::x86::__is_feature_detected::avx2, crate::ascii_ops::avx2_yes)]\n"
+                    "#[kani::stub(debruijn::bitops_avx2::convert_bases, crate::ascii_ops::kernel_spec::convert_bases)]\n"
+                    "#[kani::stub(debruijn::bitops_avx2::pack_32_bases, crate::ascii_ops::kernel_spec::pack_32_bases)]")
 STUB_TEXT = {
+    "S3a": "x86 feature detection replaced by `false` (scalar path of from_acgt_bytes)",
+    "S3b": "x86 feature detection replaced by `true` and the two AVX2 kernels replaced by their scalar specification (proved equal to the real kernels for all 256^32 blocks by the mirsmt queries)",
     "S4": "core::fmt::Formatter::pad(s) replaced by write_str(s) (exact for '{}' without width/precision)",
     "S1": "Vec::with_capacity(c) replaced by Vec::new()+reserve_exact(8) (capacity unobservable)",
     "S2": "alloc::fmt::format replaced by an empty String (panic/println message text is not the subject)",
@@ -361,9 +367,37 @@ def graph_harnesses():
     return hs
 
 
+def ascii_harnesses():
+    hs = []
+    hs.append(H("c16_tables", ["C16"], "crate::ascii_ops::tables()",
+                funcs=["base_to_bits", "dna_only_base_to_bits", "is_valid_base", "bits_to_ascii", "bits_to_base", "complement"],
+                bounds="all 256 byte values"))
+    for n in (0, 1, 31, 32, 33, 63, 64, 65, 95, 96, 97):
+        q = n in (0, 1, 32, 33, 65)
+        hs.append(H("c16_from_acgt_scalar__n%d" % n, ["C16"], "crate::ascii_ops::from_acgt_bytes::<%d, %d>()" % (n, n + 1),
+                    unwind=36, cap=600, stubs=["S1", "S3a"], tier="quick" if q else "thorough",
+                    funcs=["DnaString::from_acgt_bytes (scalar path)", "base_to_bits", "DnaString::extend"],
+                    bounds="all byte strings of length %d (all 256 values in every lane)" % n))
+        hs.append(H("c16_from_acgt_vector__n%d" % n, ["C16"], "crate::ascii_ops::from_acgt_bytes::<%d, %d>()" % (n, n + 1),
+                    unwind=36, cap=600, stubs=["S1", "S3b"], tier="quick" if q else "thorough",
+                    funcs=["DnaString::from_acgt_bytes (vector path: chunking, tail, length)", "DnaString::extend"],
+                    bounds="all byte strings of length %d (all 256 values in every lane); kernels = scalar spec" % n))
+    for n, r in ((1, 1), (2, 2), (3, 0)):
+        hs.append(H("c16_hashn__n%d_r%d" % (n, r), ["C16"], "crate::ascii_ops::hashn::<%d, %d>()" % (n, r), unwind=20, cap=900,
+                    stubs=["S1"], tier="quick" if n == 1 else "thorough",
+                    funcs=["DnaString::from_acgt_bytes_hashn", "DefaultHasher (SipHash-1-3)"],
+                    bounds="all inputs of %d bytes, all read names of %d bytes" % (n, r)))
+    for n in (1, 2):
+        hs.append(H("c16_dna_only__n%d" % n, ["C16"], "crate::ascii_ops::dna_only::<%d>()" % n, unwind=12, cap=900,
+                    tier="quick" if n == 1 else "thorough",
+                    funcs=["DnaString::from_dna_only_string", "dna_only_base_to_bits"], bounds="all ASCII strings of %d chars" % n))
+    return hs
+
+
 def all_harnesses():
     hs = []
     hs += kmer_harnesses()
+    hs += ascii_harnesses()
     hs += graph_harnesses()
     hs += slice_harnesses()
     hs += dnastring_harnesses()
